@@ -16,6 +16,12 @@ let () =
     let t = List.filter (fun s -> s <> "") (String.split_on_char ' ' line) in
     (match eng, t with
      | "cksum", [seed; hex] -> Printf.printf "%d\n" (int_of_n (cksum (bytes_of_hex hex) (n_of_int (int_of_string seed))))
+     | "lzssenc", mode :: toks ->
+         let tk s = if s.[0] = 'L' then Lit (n_of_int (int_of_string (String.sub s 1 (String.length s - 1))))
+                    else (match ints (String.sub s 1 (String.length s - 1)) with [p; l] -> Mat (n_of_int p, n_of_int l) | _ -> Lit N0) in
+         let ts = List.map tk toks in
+         let (e, x) = lzss_enc_expand (n_of_int (int_of_string mode)) ts in
+         Printf.printf "%s %s %b\n" (if e = [] then "-" else hex_of_bytes e) (if x = [] then "-" else hex_of_bytes x) (List.for_all wf_tok ts)
      | "lzss", [mode; hex] -> Printf.printf "0 %s\n" (hex_of_bytes (lzss_spec (n_of_int (int_of_string mode)) (bytes_of_hex hex)))
      | _ -> print_endline "?");
     flush stdout
